@@ -311,3 +311,16 @@ def _validator_guard(mod, q: str, f: ast.FunctionDef, cur: str) -> str | None:
         if not ok:
             return None
     return "every call site (%d) is inside `if self.<validator>(same list head)` and the validator's walk of that chain is guarded" % len(sites)
+
+
+_run_base = run
+
+
+def run(repo: Repo, rep: Report) -> None:  # noqa: F811
+    _run_base(repo, rep)
+    from vlib import memo
+
+    rep.rule("C03.f-serializer-memos-key-complete",
+             "every memo of a serializer class (prefix rewrite tables, done-sets filled on a miss) is keyed by every re-bindable instance attribute its value is computed "
+             "from (the store / graph being written, the base), or re-binding that attribute invalidates the memo", floor=4)
+    memo.scan(repo, rep, "C03.f-serializer-memos-key-complete", sorted(m for m in repo.modules if m.startswith("rdflib.plugins.serializers.")))
